@@ -91,6 +91,7 @@ type fakeSock struct {
 	closes   int
 	openedAt time.Duration
 	lastAct  time.Duration // harness view: last traffic completed on this session
+	prevAct  time.Duration // the last traffic at an instant strictly before lastAct (-1: none)
 	closedAt time.Duration
 	rerr     error
 	replies  int
@@ -100,6 +101,12 @@ type fakeSock struct {
 type sockPkt struct {
 	data []byte
 	from string
+}
+
+func (s *fakeSock) touch() {
+	if now := s.w.x.Now(); now > s.lastAct {
+		s.prevAct, s.lastAct = s.lastAct, now
+	}
 }
 
 func (s *fakeSock) isClosed() bool {
@@ -122,7 +129,7 @@ func (s *fakeSock) ReadFrom(b []byte) (int, string, error) {
 			return 0, "", s.rerr
 		}
 		n := copy(b, p.data)
-		s.lastAct = s.w.x.Now()
+		s.touch()
 		s.w.x.Ev("sock%d(s%d) ReadFrom -> %d bytes from %s", s.gen, s.sid, n, p.from)
 		return n, p.from, nil
 	case <-s.closed:
@@ -189,7 +196,7 @@ func (s *fakeSock) WriteTo(b []byte, addr string) (int, error) {
 			w.x.Violate("policy-bypass", "session %d: datagram forwarded to %q, which the outbound policy rejects", s.sid, addr)
 		}
 	}
-	s.lastAct = w.x.Now()
+	s.touch()
 	return len(b), nil
 }
 
@@ -276,7 +283,7 @@ func (w *world) ReceiveMessage() (*protocol.UDPMessage, error) {
 	case m := <-w.in:
 		// any client datagram, including a lone fragment, is traffic of its session
 		if s := w.openSock(m.SessionID); s != nil {
-			s.lastAct = w.x.Now()
+			s.touch()
 		}
 		return m, nil
 	case <-w.kill:
@@ -420,7 +427,7 @@ func (w *world) UDP(reqAddr string) (UDPConn, error) {
 			return nil, errors.New("rejected by policy")
 		}
 	}
-	s := &fakeSock{w: w, gen: len(w.socks), sid: sid, hooked: hooked, dialAddr: reqAddr, origAddr: w.hookOrig, rq: make(chan sockPkt, 256), closed: make(chan struct{}), openedAt: w.x.Now(), lastAct: w.x.Now()}
+	s := &fakeSock{w: w, gen: len(w.socks), sid: sid, hooked: hooked, dialAddr: reqAddr, origAddr: w.hookOrig, rq: make(chan sockPkt, 256), closed: make(chan struct{}), openedAt: w.x.Now(), lastAct: w.x.Now(), prevAct: -1}
 	w.socks = append(w.socks, s)
 	w.x.Ev("io UDP(%s) -> sock%d for session %d", reqAddr, s.gen, sid)
 	return s, nil
@@ -487,7 +494,18 @@ func (w *world) onSweepClose(sid uint32) {
 	if s == nil {
 		return
 	}
-	idle := w.x.Now() - s.lastAct
+	// Traffic at the very instant of the sweep is concurrent with it: the sweeper decides on
+	// its scan and a datagram that arrives between scan and close legitimately loses. Only
+	// traffic at a strictly earlier instant obliges the sweeper.
+	act := s.lastAct
+	if act >= w.x.Now() {
+		act = s.prevAct
+		w.x.Probe("sweep-concurrent-with-traffic")
+	}
+	if act < 0 {
+		return
+	}
+	idle := w.x.Now() - act
 	if idle <= w.timeout {
 		if w.x.StallCount() == 0 && !w.slowDial {
 			w.x.Violate("active-session-expired", "session %d closed by the idle sweeper %v after its last traffic (timeout %v)", sid, idle, w.timeout)
@@ -533,9 +551,39 @@ func genC07(r *hysim.Rand, tier string) *hysim.Script {
 	yieldCfg(r, sc, (timeoutS+2)*1000000*2)
 	faulty := r.Chance(1, 2)
 	sc.Cfg["faulty"] = b2i(faulty)
+	// half of the runs end with a fault-free idle tail in which every session must expire
+	// (bounded liveness once faults stop); the other half end with sessions still open when
+	// the connection is lost
+	sc.Cfg["final_idle"] = int64(r.Intn(2))
+	if r.Chance(1, 8) {
+		// stratum: datagrams that open a session at the very instant of the sweep that expires
+		// the last ones, under reschedules only (so that the timing oracles stay armed)
+		sc.Cfg["timeout_s"] = int64(r.Range(2, 4))
+		delete(sc.Cfg, "y_st")
+		delete(sc.Cfg, "y_stmax_us")
+		sc.Cfg["y_gs"] = int64(r.Pick(16, 64, 256, 512))
+		sc.Cfg["faulty"] = 0
+		sc.Cfg["policy_deny"] = 0
+		n := r.Range(1, 6)
+		for i := 0; i < n; i++ {
+			a := int64(r.Intn(nsid))
+			b := int64(r.Intn(nsid))
+			sc.Ops = append(sc.Ops, hysim.Op{K: "sweeprace", A: []int64{a, b, r.Pick64(0, 0, 0, 0, -1, 1), int64(r.Intn(3))}})
+			if r.Chance(1, 3) {
+				sc.Ops = append(sc.Ops, hysim.Op{K: "reply", A: []int64{b, 100}})
+			}
+			sc.Ops = append(sc.Ops, hysim.Op{K: "adv", A: []int64{(sc.Cfg["timeout_s"] + int64(r.Range(2, 3))) * 1000}})
+		}
+		return sc
+	}
 	for i := 0; i < nops; i++ {
 		sid := int64(r.Intn(nsid))
 		switch p := r.Intn(100); {
+		case p < 3:
+			// two sessions, each one fragmented datagram, same packet id and fragment count, interleaved
+			sc.Ops = append(sc.Ops, hysim.Op{K: "fragx", A: []int64{sid, int64(r.Intn(nsid)), int64(r.Intn(3)), int64(r.Range(2, 4)), int64(r.Uint64() >> 1), int64(r.Pick(40, 64, 900))}})
+		case p < 5:
+			sc.Ops = append(sc.Ops, hysim.Op{K: "sweeprace", A: []int64{sid, int64(r.Intn(nsid)), r.Pick64(0, 0, -1, 1), int64(r.Intn(3))}})
 		case p < 35:
 			sc.Ops = append(sc.Ops, hysim.Op{K: "msg", A: []int64{sid, int64(r.Intn(3)), int64(r.Pick(10, 11, 64, 500, 1400, 4000))}})
 		case p < 38:
@@ -753,6 +801,73 @@ func execC07(x *hysim.Run) {
 			}
 			x.Probe("mixed-address-fragments-sent")
 			settle()
+		case "fragx":
+			sidB := uint32(op.Arg(1)) + 1
+			if sidB == sid {
+				sidB = sid%uint32(sc.Get("nsid", 2)) + 1
+			}
+			n := int(op.Arg(3))
+			if n < 2 {
+				n = 2
+			}
+			pr := hysim.NewRand(uint64(op.Arg(4)), 97)
+			pid := uint16((w.seq+1)%65535) + 1
+			var trains [2][]*protocol.UDPMessage
+			for k, sd := range []uint32{sid, sidB} {
+				w.seq++
+				addr := w.dstAddr(sd, op.Arg(2))
+				p := mkPayload(1, sd, w.seq, int(op.Arg(5)))
+				w.sent[msgKey{sd, w.seq}] = &sentMsg{sid: sd, seq: w.seq, addr: addr, size: len(p), complete: true, pushedAt: x.Now()}
+				per := (len(p) + n - 1) / n
+				for _, i := range pr.Perm(n) {
+					lo, hi := i*per, (i+1)*per
+					if hi > len(p) {
+						hi = len(p)
+					}
+					if lo > hi {
+						lo = hi
+					}
+					trains[k] = append(trains[k], &protocol.UDPMessage{SessionID: sd, PacketID: pid, FragID: uint8(i), FragCount: uint8(n), Addr: addr, Data: append([]byte(nil), p[lo:hi]...)})
+				}
+			}
+			x.Ev("push fragx s%d and s%d: %d fragments each, same packet id %d, interleaved", sid, sidB, n, pid)
+			for len(trains[0])+len(trains[1]) > 0 {
+				k := pr.Intn(2)
+				if len(trains[k]) == 0 {
+					k = 1 - k
+				}
+				w.push(trains[k][0])
+				trains[k] = trains[k][1:]
+			}
+			x.Probe("same-packet-id-across-sessions")
+			settle()
+		case "sweeprace":
+			// session A gets a datagram now; a datagram for session B arrives at the instant
+			// (+-1 ms) of the first sweep at which A has expired
+			sidB := uint32(op.Arg(1)) + 1
+			w.seq++
+			addrA := w.dstAddr(sid, op.Arg(3))
+			pa := mkPayload(1, sid, w.seq, 32)
+			w.sent[msgKey{sid, w.seq}] = &sentMsg{sid: sid, seq: w.seq, addr: addrA, size: len(pa), complete: true, pushedAt: x.Now()}
+			x.Ev("push msg s%d q%d -> %s (sweeprace)", sid, w.seq, addrA)
+			w.push(&protocol.UDPMessage{SessionID: sid, FragCount: 1, Addr: addrA, Data: pa})
+			tick := ((x.Now()+w.timeout)/time.Second + 1) * time.Second
+			at := tick + time.Duration(op.Arg(2))*time.Millisecond
+			w.seq++
+			seqB := w.seq
+			addrB := w.dstAddr(sidB, op.Arg(3))
+			pb := mkPayload(1, sidB, seqB, 32)
+			// (a datagram that races with the expiry of its own session may be dropped with it)
+			w.sent[msgKey{sidB, seqB}] = &sentMsg{sid: sidB, seq: seqB, addr: addrB, size: len(pb), complete: true, pushedAt: at, mayDrop: true}
+			hysim.Go("harness:sweeprace", func() {
+				time.Sleep(at - x.Now())
+				x.Ev("push msg s%d q%d -> %s (at the sweep instant)", sidB, seqB, addrB)
+				w.push(&protocol.UDPMessage{SessionID: sidB, FragCount: 1, Addr: addrB, Data: pb})
+			})
+			x.Probe("datagram-at-sweep-instant")
+			time.Sleep(tick + time.Second - x.Now())
+			synctest.Wait()
+			w.checkExpiry()
 		case "reply":
 			s := w.openSock(sid)
 			if s == nil || s.rerr != nil {
@@ -827,6 +942,23 @@ func execC07(x *hysim.Run) {
 	}
 	if len(w.distinct) > 256 {
 		x.Probe("more-destinations-than-cache")
+	}
+	if sc.Get("final_idle", 0) == 1 && !x.Violated() {
+		// faults have stopped and nothing is in flight: every session is idle from here on and
+		// must be expired by the sweeper, whatever happened before
+		tail := w.timeout + 3*time.Second + w.maxDial
+		time.Sleep(tail)
+		synctest.Wait()
+		for _, s := range w.socks {
+			if !s.isClosed() {
+				x.Violate("idle-session-kept", "session %d (socket %d) is still open after a fault-free idle tail of %v (timeout %v, sweep period 1s)", s.sid, s.gen, tail, w.timeout)
+				break
+			}
+		}
+		if n := m.Count(); n != 0 && !x.Violated() {
+			x.Violate("idle-session-kept", "%d sessions still in the table after a fault-free idle tail of %v (timeout %v)", n, tail, w.timeout)
+		}
+		x.Probe("idle-tail-checked")
 	}
 	// ---- connection loss
 	nOpenBefore := 0
@@ -911,7 +1043,7 @@ func (w *world) checkDelivery(clean bool, c08 bool) {
 		if m.writes == 1 {
 			x.Probe("forwarded")
 		}
-		if !clean || len(m.altAddrs) > 0 {
+		if !clean || len(m.altAddrs) > 0 || m.mayDrop {
 			continue // (mixed-address messages: which header wins is unspecified; only the policy oracle applies)
 		}
 		ok := w.hook || w.allowed(m.addr)
